@@ -676,6 +676,7 @@ pub fn main(args: &[String]) -> i32 {
 							})
 							.collect();
 						let valid = tx_valid(ops, case.rc, case.append_only);
+						let ents_before = d.get_num_column_value_entries(0).ok();
 						match d.commit_changes(tx) {
 							Ok(()) => {
 								if !valid {
@@ -685,6 +686,11 @@ pub fn main(args: &[String]) -> i32 {
 							Err(e) => {
 								status = super::hist::err_class(&e);
 								rejected = true;
+								// (a') a rejected transaction consumes no storage: nothing it staged may stay claimed
+								let ents_after = d.get_num_column_value_entries(0).ok();
+								if ents_before != ents_after {
+									fail(&mut verdict, format!("rejected-consumed-storage step {si}: value entries {ents_before:?} -> {ents_after:?} across a rejected transaction"));
+								}
 								if valid {
 									fail(&mut verdict, format!("rejected-valid step {si}: {e:?}"));
 								}
